@@ -11,20 +11,25 @@ spectral matrix for partial coherence.
 import math
 import warnings
 import numpy as np
+import blas1  # noqa: one BLAS thread (oversubscribed machines: 9 s per small dense solve otherwise)
 from common import Case, Failure, f2x, flist, clist, parse_flist, np_rng
 
 PID = 'C08'
-LEAN_TARGETS = ['Nitime.Props.C08']
+LEAN_TARGETS = ['Nitime.Props.C08', 'Nitime.Props.C08Cache']
 RULE = ('scenarios from one PRNG state: 2..5 coupled channels (common cause + sinusoids + noise; amplitudes 1e-9..1e4), gains 1e-9..1e6 of both signs, explicit n_overlap=0, lengths 64..256 (quick) / ..2048 '
         '(thorough); Welch with NFFT of both parities, explicit/default overlap, hanning/array windows; multitaper (fixed, adaptive) and '
         'periodogram through get_spectra; CoherenceAnalyzer and MTCoherenceAnalyzer; bands lb/ub on and off the grid; every scenario '
         'yields one case per observable (coherency, coherence, phase, delay, band averages, partial); distinct = distinct protocol line; '
-        'degenerate spectra (single segment for partial coherence, relative spectral floor < 1e-7) are skipped and counted')
+        'degenerate spectra (single segment for partial coherence, relative spectral floor < 1e-7) are skipped and counted; per-channel amplitudes 1e-12..1e12; '
+        'session 3: getter read HISTORIES on all four coherence analyzers (seeded orders, everything handed out kept and re-inspected, judged by the bounds / symmetry '
+        'oracle), the cache path (cache_fft + cache_to_coherency, Sparse / Seed analyzers with 1..3 seeds, pair lists with repeats / reversed / self pairs) against the '
+        'function-level coherency, int16/int32/int64/uint8/float32/big-endian/read-only/Fortran/strided representations of the data')
 ASSUMPTIONS = ['real-valued input, 0 <= n_overlap < NFFT, Fs > 0, real window with non-zero energy',
                'spectra are non-degenerate: cases whose auto-spectra fall below 1e-7 of their maximum, or whose partial-coherence '
                'denominators fall below 1e-6, are skipped and counted (the theorems carry the corresponding hypotheses f_xx != 0 etc.)',
                'the signed-zero behaviour of np.angle at arg = pi is not modelled (phases are compared on the circle)']
-TRUSTED_EXTRA = ['matplotlib.mlab.csd = Welch segment-averaged windowed periodogram, detrend none, one-sided doubling, /Fs, /sum(window^2) (model: welchBin)',
+TRUSTED_EXTRA = ['reads op: the jackknife variance and the t quantiles of MTCoherenceAnalyzer.confidence_interval enter the getter object model as data',
+                 'matplotlib.mlab.csd = Welch segment-averaged windowed periodogram, detrend none, one-sided doubling, /Fs, /sum(window^2) (model: welchBin)',
                  'scipy.fftpack.fft / np.fft.fft = DFT (model: naive O(N^2) sum, segFft)',
                  'np.sqrt on complex128 = principal square root; np.angle = atan2(im, re); np.hanning',
                  'multi_taper_csd is modelled by the spectral model (Nitime.Model.C04 multiTaperCsdList; DPSS tapers and adaptive weights enter as data, see C04/C07); '
@@ -146,6 +151,20 @@ def gen_data(nr, nch, n):
     return np.array(X)
 
 
+def gen_filtered(nr, nch, n):
+    """strongly coherent channels with differently shaped, high-dynamic-range spectra: a resonant AR(2) signal and linearly
+    filtered copies of it plus a little noise (per-channel adaptive multitaper weights then differ between the channels)"""
+    from scipy.signal import lfilter
+    e = nr.randn(n + 300)
+    r_, th = nr.uniform(0.9, 0.97), nr.uniform(0.3, 2.5)
+    x = lfilter([1.0], [1.0, -2 * r_ * np.cos(th), r_ * r_], e)[300:]
+    X = [x]
+    for c in range(1, nch):
+        y = lfilter([1.0, nr.uniform(-0.95, 0.95)], [1.0, -nr.uniform(-0.9, 0.9)], x)
+        X.append(y + 1e-3 * np.std(y) * nr.randn(n))
+    return np.array(X)
+
+
 def gen_band(rng, f):
     """lb, ub on or off the grid; ub may be None"""
     k = len(f)
@@ -198,21 +217,28 @@ def make_scenarios(rng, tier, seed):
         Fs = rng.choice([1.0, 2.0, 2 * math.pi, 10.0, 0.5, 250.0, rng.uniform(0.1, 100)])
         data = gen_data(nr, nch, n)
         if rng.random() < 0.3:        # tiny / very different channel amplitudes: nothing may be floored at an epsilon
-            data = data * np.array([10.0 ** rng.choice([-9, -7, -5, -3, 0, 3]) for _ in range(nch)])[:, None]
-        out.append({'kind': 'welch', 'data': data.tolist(), 'NFFT': NFFT, 'nov': nov, 'win': wk,
+            data = data * np.array([10.0 ** rng.choice([-12, -9, -7, -5, -3, 0, 3, 6, 9, 12]) for _ in range(nch)])[:, None]
+        out.append({'kind': 'welch', 'data': data.tolist(), 'NFFT': NFFT, 'nov': nov, 'win': wk, 'hseed': rng.randint(0, 10 ** 6),
                     'winvals': None if wk == 'hann' else win_vals(wk, NFFT, nr), 'Fs': Fs, 'band_u': [rng.random() for _ in range(8)]})
     for s in range(14 if big else 5):
         nch = rng.choice([2, 3, 4, 4, 5])
         n = rng.choice([64, 100, 128, 255] if not big else [64, 128, 255, 512, 1024])
         Fs = rng.choice([1.0, 2 * math.pi, 10.0])
-        amp = (10.0 ** rng.choice([-8, -5, 0, 0, 4])) if rng.random() < 0.4 else 1.0
-        out.append({'kind': 'csd', 'method': rng.choice(['multi_taper_csd', 'multi_taper_csd_adaptive', 'periodogram_csd']),
-                    'data': (gen_data(nr, nch, n) * amp).tolist(), 'Fs': Fs, 'band_u': [rng.random() for _ in range(8)]})
+        amp = (10.0 ** rng.choice([-12, -8, -5, 0, 0, 4, 12])) if rng.random() < 0.4 else 1.0
+        filt = s % 2 == 1         # every other scenario: filtered copies of one resonant signal, adaptive weights
+        out.append({'kind': 'csd', 'method': 'multi_taper_csd_adaptive' if filt else rng.choice(['multi_taper_csd', 'multi_taper_csd_adaptive', 'periodogram_csd']),
+                    'hseed': rng.randint(0, 10 ** 6),
+                    'data': ((gen_filtered(nr, nch, n) if filt else gen_data(nr, nch, n)) * amp).tolist(), 'Fs': Fs, 'band_u': [rng.random() for _ in range(8)]})
     for s in range(10 if big else 4):
         nch = rng.choice([2, 3, 4, 4, 5])
         n = rng.choice([64, 101, 128] if not big else [64, 101, 128, 256, 513])
-        amp = (10.0 ** rng.choice([-8, -5, 0, 0, 4])) if rng.random() < 0.4 else 1.0
-        out.append({'kind': 'mta', 'adaptive': rng.random() < 0.5, 'data': (gen_data(nr, nch, n) * amp).tolist(),
+        amp = (10.0 ** rng.choice([-12, -8, -5, 0, 0, 4, 12])) if rng.random() < 0.4 else 1.0
+        filt = s % 2 == 1
+        data = (gen_filtered(nr, nch, n) if filt else gen_data(nr, nch, n)) * amp
+        if rng.random() < 0.3:        # per-channel amplitudes (class L4)
+            data = data * np.array([10.0 ** rng.choice([-6, -3, 0, 3, 6]) for _ in range(nch)])[:, None]
+        out.append({'kind': 'mta', 'adaptive': True if filt else rng.random() < 0.5, 'data': data.tolist(), 'hseed': rng.randint(0, 10 ** 6),
+                    'nw': rng.choice([None, None, 2, 3, 2.5]), 'alpha': rng.choice([0.05, 0.1, 0.01]),
                     'Fs': rng.choice([1.0, 2 * math.pi, 10.0])})
     return out
 
@@ -256,10 +282,11 @@ def csd_method_of(sc):
 
 
 def run(fn):
+    import contextlib, io
     try:
         with warnings.catch_warnings():
             warnings.simplefilter('ignore')
-            with np.errstate(all='ignore'):
+            with np.errstate(all='ignore'), contextlib.redirect_stdout(io.StringIO()):      # the adaptive-weights routine prints
                 return fn()
     except Exception as e:  # noqa
         import common
@@ -275,9 +302,11 @@ def impl_results(sc):
     R = {}
     if sc['kind'] == 'mta':
         def mk():
-            a = MTCoherenceAnalyzer(ts.TimeSeries(X, sampling_rate=sc['Fs']), adaptive=sc['adaptive'])
+            a = mt_make(sc, X)
             return {'coherence': np.array(a.coherence), 'spectra': np.array(a.spectra), 'weights': np.array(a.weights)}
         R['mta'] = run(mk)
+        if X.shape[1] <= 256:
+            R['reads'] = run(lambda: mt_reads(sc, X))
         return R
     if sc['kind'] == 'welch':
         m = lambda: method_of(sc)
@@ -307,7 +336,75 @@ def impl_results(sc):
             out[name] = run(lambda: np.array(getattr(C, name)))
         return out
     R['an'] = run(an)
+    if sc['kind'] == 'welch' and X.shape[1] <= 512:       # the model recomputes every cached slice with the naive DFT
+        R['cache'] = run(lambda: cache_case_data(sc, X, R))
     return R
+
+
+def mt_reads(sc, X):
+    """one MTCoherenceAnalyzer read in a seeded order of .coherence (c) / .confidence_interval (i); what every read handed
+    out at that moment and what the SAME objects hold at the end; plus the data the model needs (coherence of a fresh
+    analyzer, jackknife variance, t quantiles, dof)"""
+    import random
+    from nitime import utils as tsu
+    from nitime.lazy import scipy_stats_distributions as dist
+    order = random.Random('reads/%d' % sc.get('hseed', 0)).choice(['ic', 'ci', 'cic', 'icc', 'cici', 'iic', 'cci'])
+    a = mt_make(sc, X)
+    kept, now = [], []
+    for ch in order:
+        v = a.coherence if ch == 'c' else a.confidence_interval
+        kept.append(v)
+        now.append(np.array(v, dtype=float).ravel().copy())
+    end = [np.array(v, dtype=float).ravel().copy() for v in kept]
+    f = mt_make(sc, X)
+    nch = X.shape[0]
+    c0 = np.array(f.coherence, dtype=float)
+    var = np.zeros_like(c0)
+    for i in range(nch):
+        for j in range(i):
+            var[i, j] = tsu.jackknifed_coh_variance(f.spectra[i], f.spectra[j], f.eigs, adaptive=sc['adaptive'])
+            var[j, i] = var[i, j]
+    df = f.df
+    return {'order': order, 'now': now, 'end': end, 'c0': c0.ravel(), 'var': var.ravel(), 'dof': float(2 * df - 2),
+            'tlo': float(dist.t.ppf(f.alpha / 2, df - 1)), 'thi': float(dist.t.ppf(1 - f.alpha / 2, df - 1))}
+
+
+def cache_case_data(sc, X, R):
+    """SparseCoherenceAnalyzer.coherency for a seeded pair list / band / memory setting, for the model's `cache` op"""
+    import random
+    import nitime.timeseries as ts
+    from nitime.analysis import SparseCoherenceAnalyzer
+    if isinstance(R.get('spectra'), str):
+        return 'err no-spectra'
+    f_full = np.asarray(R['spectra'][0])
+    r = random.Random('cachecase/%d' % sc.get('hseed', 0))
+    nch = X.shape[0]
+    allp = [(i, j) for i in range(nch) for j in range(nch)]
+    ij = r.sample(allp, min(len(allp), r.choice([2, 3, 4])))
+    if r.random() < 0.5:
+        ij.append(ij[0][::-1])
+    lb, ub = R['band'] if r.random() < 0.5 else (0, None)
+    psm, sbf = r.random() < 0.5, r.random() < 0.7
+    A = SparseCoherenceAnalyzer(ts.TimeSeries(X, sampling_rate=sc['Fs']), ij=ij, method=method_of(sc), lb=lb, ub=ub,
+                                prefer_speed_over_memory=psm, scale_by_freq=sbf)
+    C = np.array(A.coherency)
+    fb = np.array(A.frequencies)
+    nb = C.shape[-1]
+    li = int(np.argmin(np.abs(f_full - fb[0]))) if nb else 0
+    return {'ij': ij, 'psm': psm, 'sbf': sbf, 'li': li, 'nb': nb, 'vals': np.concatenate([C[i, j] for (i, j) in ij]) if nb else np.zeros(0, complex)}
+
+
+def mt_make(sc, X=None):
+    """MTCoherenceAnalyzer of a scenario, with its options (bandwidth chosen so that NW = sc['nw'], alpha)"""
+    import nitime.timeseries as ts
+    from nitime.analysis import MTCoherenceAnalyzer
+    X = np.array(sc['data'], dtype=float) if X is None else X
+    kw = {'adaptive': sc['adaptive']}
+    if sc.get('nw') is not None:
+        kw['bandwidth'] = sc['nw'] * (2 * sc['Fs']) / X.shape[-1]
+    if sc.get('alpha') is not None:
+        kw['alpha'] = sc['alpha']
+    return MTCoherenceAnalyzer(ts.TimeSeries(X, sampling_rate=sc['Fs']), **kw)
 
 
 # ------------------------------------------------------------------ cases
@@ -362,6 +459,11 @@ def cases_of(sc, R, si):
             toks += [flist(np.real(w[i, t]).reshape(-1)) for t in range(sp.shape[1])]
         line = 'C08 mt %d %d %d %s' % (n, nch, sp.shape[1], ' '.join(toks))
         out.append(Case(line, ok_r(r['coherence']), 'mt-analyzer/coherence', cmp=cmp_vec, meta={'sc': si, 'obs': 'mta'}))
+        q = R.get('reads')
+        if isinstance(q, dict):
+            line = 'C08 reads %s %s %s %s %s %s' % (f2x(q['dof']), f2x(q['tlo']), f2x(q['thi']), flist(q['c0']), flist(q['var']), q['order'])
+            out.append(Case(line, 'ok ' + ' '.join(flist(v) for v in q['now'] + q['end']), 'mt-analyzer/read-history', cmp=cmp_vec,
+                            meta={'sc': si, 'obs': 'mta'}))
         return out
     if isinstance(R['spectra'], str):
         if sc['kind'] == 'welch':
@@ -404,6 +506,12 @@ def cases_of(sc, R, si):
                     line = 'C08 mtcsd %s %s %d 1 %d %d %s %s %s %s' % (what, f2x(sc['Fs']), n, nch, len(eig), flist(dpss.reshape(-1)),
                                                                       'a' if adaptive else 'f', flist(wv), clist(X.reshape(-1)))
                     out.append(Case(line, conv(r[1]), '%s/joint/%s' % (pre, what), cmp=cmp_vec, meta={'sc': si, 'obs': what}))
+    q = R.get('cache')
+    if sc['kind'] == 'welch' and isinstance(q, dict) and q['nb'] > 0:
+        nov = 'dfunc' if sc['nov'] is None else str(sc['nov'])
+        line = 'C08 cache %d %s %s %s %d %d %d %d %s %s' % (sc['NFFT'], nov, f2x(sc['Fs']), win_tok(sc), int(q['sbf']), int(q['psm']), q['li'], q['nb'],
+                                                         ','.join('%d:%d' % p_ for p_ in q['ij']), ' '.join(flist(x) for x in X))
+        out.append(Case(line, ok_c(q['vals']), 'welch/cache/coherency', cmp=cmp_vec, meta={'sc': si, 'obs': 'coherency'}))
     full = lambda pos: pos
     pw = phase_weights(fxy, full, (nch, nch, nf))
     if sc['kind'] == 'welch':
@@ -588,6 +696,7 @@ def judge(sc, R, gain_rng=None):
             bad('mt-analyzer/coherence/not-symmetric', 'MT coherence matrix is not symmetric', 'mta')
         d = np.array([c[i, i] for i in range(nch)])
         mt_reuse_checks(sc, bad)
+        mt_getter_history(sc, bad)
         if np.abs(d - 1).max() > 1e-9:
             if np.all(d == 0):      # the recorded defect: the diagonal is never filled
                 bad('mt-analyzer/self-coherence/zero-diagonal', 'MTCoherenceAnalyzer.coherence[i,i] = 0, not 1', 'mta')
@@ -698,8 +807,11 @@ def judge(sc, R, gain_rng=None):
                     bad(pre + '/analyzer/partial/%sne-inverse' % sig, 'CoherenceAnalyzer.coherence_partial differs from the inverse-matrix value by %.3g' % worst, 'apartial')
                 if above > 1 + tol:
                     bad(pre + '/analyzer/partial/%sabove-1' % sig, 'CoherenceAnalyzer.coherence_partial reaches %.4g > 1' % above, 'apartial')
-    # analyzer reuse / repeated calls / in-place overwrite / memory layouts
+    # analyzer reuse / repeated calls / in-place overwrite / memory layouts / getter histories / cache path
     reuse_checks(sc, bad)
+    getter_history_checks(sc, bad)
+    if sc['kind'] == 'welch':
+        cache_path_checks(sc, R, bad)
     mk_ = (lambda: method_of(sc)) if sc['kind'] == 'welch' else (lambda: csd_method_of(sc))
     A_ = tsa()
     lb_, ub_ = R['band']
@@ -710,11 +822,12 @@ def judge(sc, R, gain_rng=None):
     if nch >= 3 and sc['kind'] == 'welch':
         calls.append(('partial', lambda X_, m_: A_.coherence_partial(X_[:-1], X_[-1], m_)))
     identity_checks(pre, X, calls, mk_, bad)
+    dtype_checks(pre, X, calls, mk_, bad, sc.get('hseed', 0))
     # gain metamorphic relation (function level): channel m times a
     if gain_rng is not None and not isinstance(cy, str):
         A = tsa()
         m_ = gain_rng.randrange(nch)
-        g = gain_rng.choice([-1.0, -0.37, 2.5, -4.0, 1e-3, -1e3, 1e-7, -1e-9, 1e6])
+        g = gain_rng.choice([-1.0, -0.37, 2.5, -4.0, 1e-3, -1e3, 1e-7, -1e-9, 1e6, 1e-12, -1e12, 1e9])
         X2 = X.copy()
         X2[m_] *= g
         meth = (lambda: method_of(sc)) if sc['kind'] == 'welch' else (lambda: csd_method_of(sc))
@@ -871,6 +984,300 @@ def identity_checks(pre, X, calls, mk, bad, obs='coherency'):
         r6 = run(lambda: call(big[::2, ::2], mk()))
         if not same(r6, r1, 1e-10):
             bad('%s/func/%s/layout-strided-view-differs' % (pre, name), '%s on a strided view differs' % name, obs)
+
+
+
+# ------------------------------------------------------------------ getter histories (classes L2 / L6), cache path, dtype families (L1)
+def snap(v):
+    """deep copy of what a getter handed out (arrays, dicts of arrays, numbers)"""
+    if isinstance(v, np.ndarray):
+        return np.array(v, copy=True)
+    if isinstance(v, dict):
+        return {k: snap(x) for k, x in v.items()}
+    if isinstance(v, (list, tuple)):
+        return [snap(x) for x in v]
+    return v
+
+
+def same_deep(a, b, rtol=1e-9):
+    if isinstance(a, str) or isinstance(b, str):
+        return isinstance(a, str) and isinstance(b, str) and a == b
+    if isinstance(a, dict) or isinstance(b, dict):
+        return isinstance(a, dict) and isinstance(b, dict) and set(a) == set(b) and all(same_deep(a[k], b[k], rtol) for k in a)
+    if isinstance(a, (list, tuple)) and isinstance(b, (list, tuple)):
+        return len(a) == len(b) and all(same_deep(x, y, rtol) for x, y in zip(a, b))
+    try:
+        a_, b_ = np.asarray(a), np.asarray(b)
+        if a_.dtype.kind not in 'fciu' or b_.dtype.kind not in 'fciu':
+            return bool(a_.shape == b_.shape and np.array_equal(a_, b_))
+        return same(a_, b_, rtol)
+    except Exception:
+        return False
+
+
+GETTERS = {
+    'analyzer': ['coherency', 'coherence', 'phase', 'delay', 'coherence_partial', 'spectrum', 'frequencies'],
+    'mt-analyzer': ['coherence', 'confidence_interval', 'frequencies', 'spectra', 'weights', 'tapers', 'eigs', 'df'],
+    'sparse-analyzer': ['coherency', 'coherence', 'spectrum', 'phases', 'relative_phases', 'delay', 'frequencies', 'cache'],
+    'seed-analyzer': ['coherence', 'coherency', 'relative_phases', 'delay', 'frequencies', 'target_cache'],
+}
+
+
+def judge_values(pre, vals, bad, obs, square=True, tol=None):
+    """C08's own oracle on getter values as they stand (after a read history): bounds, symmetry, |coherency|^2 = coherence"""
+    BOUND_TOL = globals()['BOUND_TOL'] if tol is None else tol
+    co, cy = vals.get('coherence'), vals.get('coherency')
+    if isinstance(co, np.ndarray):
+        c = np.real(co)
+        fin = np.isfinite(c)
+        if not fin.all():
+            bad(pre + '/coherence/not-finite', '%s.coherence holds non-finite values' % pre, obs)
+            if fin.any() and c[fin].max() > 1 + BOUND_TOL:
+                bad(pre + '/coherence/above-1', '%s.coherence reaches %.6g > 1' % (pre, c[fin].max()), obs)
+        elif c.size:
+            if c.max() > 1 + BOUND_TOL:
+                bad(pre + '/coherence/above-1', '%s.coherence reaches %.6g > 1' % (pre, c.max()), obs)
+            if c.min() < -BOUND_TOL:
+                bad(pre + '/coherence/below-0', '%s.coherence has value %.6g < 0' % (pre, c.min()), obs)
+            if square and c.ndim == 3 and c.shape[0] == c.shape[1]:
+                if np.abs(c - np.transpose(c, (1, 0, 2))).max() > 1e-9:
+                    bad(pre + '/coherence/not-symmetric', '%s.coherence[j,i] != coherence[i,j]' % pre, obs)
+                d = np.array([c[i, i] for i in range(c.shape[0])])
+                if np.abs(d - 1).max() > 1e-9:
+                    bad(pre + '/self-coherence/not-1', '%s.coherence[i,i] differs from 1 by %.3g' % (pre, np.abs(d - 1).max()), obs)
+    if isinstance(cy, np.ndarray) and np.all(np.isfinite(np.abs(cy))) and cy.size:
+        if np.abs(cy).max() > 1 + BOUND_TOL:
+            bad(pre + '/coherency/modulus-above-1', '|%s.coherency| reaches %.6g > 1' % (pre, np.abs(cy).max()), obs)
+        if square and cy.ndim == 3 and cy.shape[0] == cy.shape[1] and np.abs(cy - np.conj(np.transpose(cy, (1, 0, 2)))).max() > 1e-9:
+            bad(pre + '/coherency/not-hermitian', '%s.coherency[j,i] != conj coherency[i,j]' % pre, obs)
+        if isinstance(co, np.ndarray) and co.shape == cy.shape and np.all(np.isfinite(np.real(co))):
+            if np.abs(np.abs(cy) ** 2 - np.real(co)).max() > 1e-9:
+                bad(pre + '/coherency/normsq-ne-coherence', '|%s.coherency|^2 differs from .coherence by %.3g' % (pre, np.abs(np.abs(cy) ** 2 - np.real(co)).max()), obs)
+    for nm in ('phase', 'delay'):
+        p_ = vals.get(nm)
+        if square and isinstance(p_, np.ndarray) and p_.ndim == 3 and p_.shape[0] == p_.shape[1]:
+            with np.errstate(all='ignore'):
+                q = p_ + np.transpose(p_, (1, 0, 2))
+            q = q[~np.eye(p_.shape[0], dtype=bool)]
+            q = q[np.isfinite(q)]
+            if q.size and np.abs(q).max() > 1e-9:
+                bad('%s/%s/not-antisymmetric' % (pre, nm), '%s.%s[j,i] != -%s[i,j]' % (pre, nm, nm), obs)
+
+
+def getter_history(pre, make, getters, hseed, bad, obs, square=True, orders=2):
+    """read every getter of ONE analyzer in a seeded order (each twice, interleaved), keep everything that was handed out and
+    re-inspect it at the end: (L6) a kept result still holds what it held; (L2) a re-read equals the value a FRESH analyzer
+    gives when that getter is the only one read; the values as they stand pass C08's own oracle (bounds / symmetry)"""
+    import random
+    fresh = {}
+    for g in getters:
+        fresh[g] = run(lambda: snap(getattr(make(), g)))
+    for oi in range(orders):
+        r = random.Random('getters/%d/%d' % (hseed, oi))
+        first = list(getters)
+        r.shuffle(first)
+        second = list(getters)
+        r.shuffle(second)
+        order = first + second[:max(2, len(second) // 2)]
+        C = run(make)
+        if isinstance(C, str):
+            return
+        kept = []
+        for g in order:
+            v = run(lambda: getattr(C, g))
+            if isinstance(v, str):
+                if not isinstance(fresh[g], str):
+                    bad('%s/history/%s/raises' % (pre, g), '%s.%s raised %s after reading %s (a fresh analyzer does not)' % (pre, g, v, [k[0] for k in kept]), obs)
+                continue
+            kept.append((g, v, snap(v)))
+        tag = ' -> '.join(order)
+        final = {}
+        for g, v, s0 in kept:
+            if not same_deep(v, s0, 0.0):
+                bad('%s/history/%s/handed-out-changed' % (pre, g), 'the object handed out by %s.%s was changed in place by a later read (order: %s)' % (pre, g, tag), obs)
+            v2 = run(lambda: getattr(C, g))
+            if not isinstance(fresh[g], str) and not same_deep(v2, fresh[g]):
+                bad('%s/history/%s/differs-from-fresh' % (pre, g), '%s.%s after the read order %s differs from the value of a fresh analyzer' % (pre, g, tag), obs)
+            final[g] = v2
+            if g in ('coherence', 'coherency'):
+                judge_values(pre + '/history/kept', {g: v}, bad, obs, square)
+        judge_values(pre + '/history', final, bad, obs, square)
+
+
+def getter_history_checks(sc, bad):
+    import nitime.timeseries as ts
+    from nitime.analysis import CoherenceAnalyzer
+    X = np.array(sc['data'], dtype=float)
+    pre = sc['kind'] if sc['kind'] == 'welch' else sc['method']
+    mk = (lambda: explicit_method(sc))
+    if sc['kind'] == 'welch' and sc['nov'] is None and sc['NFFT'] <= 32 and X.shape[1] < sc['NFFT'] + 32:
+        return
+    getters = [g for g in GETTERS['analyzer'] if g != 'coherence_partial' or X.shape[0] >= 3]
+    getter_history(pre + '/analyzer', lambda: CoherenceAnalyzer(ts.TimeSeries(X, sampling_rate=sc['Fs']), method=mk()),
+                   getters, sc.get('hseed', 0), bad, 'an', orders=1)
+
+
+def mt_getter_history(sc, bad):
+    getter_history('mt-analyzer', lambda: mt_make(sc), GETTERS['mt-analyzer'], sc.get('hseed', 0), bad, 'mta', orders=2)
+
+
+def cache_path_checks(sc, R, bad):
+    """cache_fft + cache_to_coherency, SparseCoherenceAnalyzer, SeedCoherenceAnalyzer (multi-channel seeds, one shared target
+    cache) judged by C08's oracle: equal to the function-level coherency on the band (independent route through mlab.csd),
+    modulus <= 1, value 1 of a channel with itself / with a scaled copy of itself, Hermitian where both orders are asked for;
+    getter histories on both analyzers; every seed row equals the single-seed analyzer of that seed"""
+    import random
+    A = tsa()
+    import nitime.timeseries as ts
+    from nitime.analysis import SparseCoherenceAnalyzer, SeedCoherenceAnalyzer
+    X = np.array(sc['data'], dtype=float)
+    nch, n = X.shape
+    if isinstance(R.get('coherency'), str) or isinstance(R.get('spectra'), str):
+        return
+    f_full, cy_full = R['coherency']
+    cy_full = np.asarray(cy_full)
+    r = random.Random('cache/%d' % sc.get('hseed', 0))
+    lb, ub = R['band'] if r.random() < 0.6 else (0, None)
+    # pair list with repeats, reversed pairs, self pairs, a strict subset (class L5)
+    allp = [(i, j) for i in range(nch) for j in range(i, nch)]
+    ij = r.sample(allp, max(1, len(allp) * 2 // 3))
+    ij += [(j, i) for (i, j) in ij[:2] if i != j] + [ij[0]] + [(r.randrange(nch),) * 2]
+    r.shuffle(ij)
+    psom = r.random() < 0.5
+    sbf = r.random() < 0.7
+
+    def band_of(f_band):
+        if len(f_band) == 0:
+            return 0, 0
+        li = int(np.argmin(np.abs(np.asarray(f_full) - f_band[0])))
+        return li, li + len(f_band)
+
+    def compare(pre, C, pairs, f_band, obs='coherency'):
+        if len(f_band) == 0:           # empty band: nothing to judge
+            return
+        li, ui = band_of(f_band)
+        for (i, j) in pairs:
+            got = np.asarray(C[i, j])
+            want = cy_full[i, j, li:ui]
+            if got.shape != want.shape or not same(got, want, 1e-9):
+                bad(pre + '/coherency/ne-function-level', '%s coherency of the pair (%d,%d) differs from the function-level coherency on the band' % (pre, i, j), obs)
+                break
+        vals = np.array([np.asarray(C[i, j]) for (i, j) in pairs])
+        if vals.size and np.all(np.isfinite(np.abs(vals))) and np.abs(vals).max() > 1 + BOUND_TOL:
+            bad(pre + '/coherence/above-1', '%s: |coherency| reaches %.6g > 1' % (pre, np.abs(vals).max()), obs)
+        for (i, j) in pairs:
+            if i == j and np.abs(np.asarray(C[i, j]) - 1).max() > 1e-9:
+                bad(pre + '/self-coherence/not-1', '%s: coherency of channel %d with itself is not 1' % (pre, i), obs)
+            if (j, i) in pairs and i < j and np.abs(np.asarray(C[j, i]) - np.conj(np.asarray(C[i, j]))).max() > 1e-9:
+                bad(pre + '/coherency/not-hermitian', '%s: coherency[%d,%d] != conj coherency[%d,%d]' % (pre, j, i, i, j), obs)
+
+    def meth():
+        return method_of(sc)
+    # --- function level: cache_fft + cache_to_coherency (twice on the same cache)
+    res = run(lambda: A.cache_fft(X, ij, lb=lb, ub=ub, method=meth(), prefer_speed_over_memory=psom, scale_by_freq=sbf))
+    if isinstance(res, str):
+        bad('welch/cache/raises', 'cache_fft raised ' + res, 'coherency')
+        return
+    fb, cache = res
+    C1 = run(lambda: A.cache_to_coherency(cache, ij))
+    C2 = run(lambda: A.cache_to_coherency(cache, list(reversed(ij))))
+    if isinstance(C1, str) or isinstance(C2, str):
+        bad('welch/cache/raises', 'cache_to_coherency raised %s' % (C1 if isinstance(C1, str) else C2), 'coherency')
+    else:
+        compare('welch/cache', C1, ij, fb)
+        if not same(C1, C2, 0.0):
+            bad('welch/cache/coherency/repeat-call-differs', 'cache_to_coherency called twice on the same cache gives different results', 'coherency')
+    # --- SparseCoherenceAnalyzer: values and getter history
+    T = lambda: ts.TimeSeries(X, sampling_rate=sc['Fs'])
+    mkS = lambda: SparseCoherenceAnalyzer(T(), ij=ij, method=meth(), lb=lb, ub=ub, prefer_speed_over_memory=psom, scale_by_freq=sbf)
+    S = run(lambda: (lambda a: (np.array(a.coherency), np.array(a.coherence), np.array(a.frequencies)))(mkS()))
+    if isinstance(S, str):
+        bad('welch/sparse-analyzer/raises', 'SparseCoherenceAnalyzer raised ' + S, 'an')
+    else:
+        compare('welch/sparse-analyzer', S[0], ij, fb, 'an')
+        if not same(np.abs(S[0]) ** 2, S[1], 1e-9):
+            bad('welch/sparse-analyzer/coherency/normsq-ne-coherence', 'SparseCoherenceAnalyzer: |coherency|^2 != coherence', 'an')
+        getter_history('welch/sparse-analyzer', mkS, GETTERS['sparse-analyzer'], sc.get('hseed', 0), bad, 'an', square=False, orders=1)
+    # --- SeedCoherenceAnalyzer: several seeds against ONE target cache; seeds = scaled copies of targets and a mixture
+    nseed = r.choice([1, 2, 3, 3])
+    gains = [r.choice([-3.0, 0.5, 1e-6, 1e6, -1e-12, 1e12, 1.0]) for _ in range(nseed)]
+    src = [r.randrange(nch) for _ in range(nseed)]
+    seeds = np.array([X[src[k]] * gains[k] if k != 1 else 0.5 * X[src[k]] / (np.abs(X[src[k]]).max() or 1.0) + 0.5 * X[(src[k] + 1) % nch] / (np.abs(X[(src[k] + 1) % nch]).max() or 1.0)
+                      for k in range(nseed)])
+    seed_arg = seeds if (nseed > 1 or r.random() < 0.5) else seeds[0]
+    kw = dict(lb=lb, ub=ub, prefer_speed_over_memory=psom, scale_by_freq=sbf)
+    mkD = lambda: SeedCoherenceAnalyzer(ts.TimeSeries(seed_arg, sampling_rate=sc['Fs']), T(), method=meth(), **kw)
+    D = run(lambda: (lambda a: (np.array(a.coherency), np.array(a.coherence)))(mkD()))
+    if isinstance(D, str):
+        bad('welch/seed-analyzer/raises', 'SeedCoherenceAnalyzer raised ' + D, 'an')
+        return
+    if D[0].size == 0:
+        return
+    Dc = D[0].reshape((nseed, nch, -1))
+    if not np.all(np.isfinite(np.abs(Dc))):
+        return
+    if Dc.size and np.abs(Dc).max() > 1 + BOUND_TOL:
+        bad('welch/seed-analyzer/coherence/above-1', 'SeedCoherenceAnalyzer (%d seeds): |coherency| reaches %.6g > 1' % (nseed, np.abs(Dc).max()), 'an')
+    if Dc.size and D[1].max() > 1 + BOUND_TOL:
+        bad('welch/seed-analyzer/coherence/above-1', 'SeedCoherenceAnalyzer (%d seeds): coherence reaches %.6g > 1' % (nseed, D[1].max()), 'an')
+    li, ui = band_of(fb)
+    for k in range(nseed):
+        if k != 1:
+            # a seed that is a scaled copy of target t: modulus 1 with t, and the row is sign(gain) * the function-level row of t
+            t = src[k]
+            if Dc.shape[-1] and np.abs(np.abs(Dc[k, t]) - 1).max() > 1e-9:
+                bad('welch/seed-analyzer/self-coherence/not-1', 'SeedCoherenceAnalyzer: seed %d is %g x target %d but their coherence is not 1' % (k, gains[k], t), 'an')
+            want = np.sign(gains[k]) * cy_full[t, :, li:ui]
+            if want.shape == Dc[k].shape and not same(Dc[k], want, 1e-9):
+                bad('welch/seed-analyzer/coherency/ne-function-level', 'SeedCoherenceAnalyzer: the row of seed %d (= %g x target %d) differs from the function-level coherency of that channel' % (k, gains[k], t), 'an')
+        single = run(lambda: np.array(SeedCoherenceAnalyzer(ts.TimeSeries(seeds[k], sampling_rate=sc['Fs']), T(), method=meth(), **kw).coherency))
+        if not isinstance(single, str) and single.reshape(-1).shape == Dc[k].reshape(-1).shape and not same(single.reshape(Dc[k].shape), Dc[k], 1e-9):
+            bad('welch/seed-analyzer/multi-vs-single-seed', 'SeedCoherenceAnalyzer with %d seeds: the row of seed %d differs from the analyzer built for that seed alone' % (nseed, k), 'an')
+    getter_history('welch/seed-analyzer', mkD, GETTERS['seed-analyzer'], sc.get('hseed', 0), bad, 'an', square=False, orders=1)
+
+
+DTYPE_KINDS = ('int16', 'int32', 'int64', 'uint8', 'float32', 'F', 'strided', 'readonly', 'bigendian')
+
+
+def dtype_checks(pre, X, calls, mk, bad, hseed, obs='coherency'):
+    """class L1: the same routine on an int16 / int32 / int64 / uint8 / float32 / big-endian / read-only / Fortran / strided
+    representation = the routine on that representation converted to float64 (exact conversion); bounds on the result"""
+    import random
+    from histories import dtype_family
+    r = random.Random('dtype/%d' % hseed)
+    fam = dtype_family(np.array(X, dtype=float), r, DTYPE_KINDS)
+    for name, call in calls:
+        for lab, Xv in r.sample(fam, min(3, len(fam))):
+            X64 = np.array(Xv, dtype=float)
+            if not cond_family(X64):
+                continue
+            want = run(lambda: call(X64, mk()))
+            got = run(lambda: call(Xv, mk()))
+            if isinstance(want, str):
+                continue
+            if isinstance(got, str):
+                bad('%s/func/%s/dtype/%s/raises' % (pre, name, lab), '%s raised %s on %s data (the float64 copy of the same numbers is accepted)' % (name, got, lab), obs)
+            elif not same(got, want, 1e-4 if lab == 'float32' else 1e-9):      # float32 data: some estimators transform in single precision
+                bad('%s/func/%s/dtype/%s/differs' % (pre, name, lab), '%s on %s data differs from the result on the same numbers as float64 (%s)' % (name, lab, maxdiff(got, want)), obs)
+            elif name == 'coherence':
+                judge_values('%s/func/dtype-%s' % (pre, lab), {'coherence': np.asarray(got[1])}, bad, obs,
+                             tol=1e-5 if lab == 'float32' else None)      # single-precision transforms round at 1e-7
+
+
+def maxdiff(a, b):
+    try:
+        if isinstance(a, (tuple, list)):
+            return '; '.join(maxdiff(x, y) for x, y in zip(a, b))
+        a, b = np.asarray(a), np.asarray(b)
+        m = np.isfinite(a) & np.isfinite(b)
+        return 'max |diff| %.3g at scale %.3g' % (np.abs(a[m] - b[m]).max(), np.abs(b[m]).max())
+    except Exception as e:
+        return 'shapes %s' % (e,)
+
+
+def cond_family(X64):
+    """a rounded integer representation can make a channel constant: skip degenerate variants"""
+    return bool(np.all(np.ptp(X64, axis=-1) > 0))
 
 
 def oracle(rng, tier, seed, focus, cases=None):
